@@ -2,5 +2,5 @@ SPECIFICATION Spec
 CONSTANTS
   LB = 16
   NC = 12
-INVARIANTS AddSubInverse CarryChain ShiftMask MinMaxLaws LogicLaws BranchLaws VecLaws LaneWise FloatLaws WellFormed
+INVARIANTS AddSubInverse CarryChain ShiftMask MinMaxLaws LogicLaws BranchLaws VecLaws LaneWise FloatLaws ModifierLaws WellFormed
 CHECK_DEADLOCK FALSE
